@@ -23,6 +23,7 @@ def _env(hashseed):
     env["PYTHONDONTWRITEBYTECODE"] = "1"
     env["CMVERIF_REEXEC"] = "1"
     env["PYTHONPATH"] = base.REPO_SRC + os.pathsep + base.VERIF_DIR
+    env.update({"LC_ALL": "C.UTF-8", "LANG": "C.UTF-8", "PYTHONUTF8": "0", "PYTHONCOERCECLOCALE": "0"})
     return env
 
 
